@@ -192,6 +192,41 @@ def search(seed, tier, hints):
 
 
 def replay(payload):
-    common.say("replay input:", {k: v for k, v in payload.get("input", {}).items() if k != "ecc"})
-    common.say("re-run the check with the recorded seed to reproduce (a real ecc file is involved)")
-    return 0
+    """re-runs the real tool on the recorded damaged files and damaged ecc file and judges again; exit 1 if the property still fails"""
+    inp = payload.get("input", {})
+    try:
+        P = eu.Params(**inp["params"])
+        tree = {k: bytes.fromhex(v) for k, v in inp["tree"].items()}
+        dmg = {k: bytes.fromhex(v) for k, v in inp["damaged"].items()}
+        data = bytes.fromhex(inp["ecc"])
+    except (KeyError, ValueError, TypeError):
+        common.say("replay file is not self-contained: re-run the check with the recorded seed")
+        return 0
+    d = os.path.join(common.scratch(), "c01replay")
+    shutil.rmtree(d, ignore_errors=True)
+    droot, e2 = os.path.join(d, "dmg"), os.path.join(d, "ecc2.txt")
+    eu.write_tree(droot, dmg)
+    os.makedirs(d, exist_ok=True)
+    open(e2, "wb").write(data)
+    rc, st, out, _ = eu.correct(P, droot, e2, os.path.join(d, "out"))
+    bad = None
+    if rc != "0":
+        bad = "correction of within-capacity damage exited %s" % rc
+    else:
+        for p_ in sorted(tree):
+            prot = len(tree[p_]) if P.tool == "whole" else min(P.size, len(tree[p_]))
+            if dmg.get(p_, b"")[:prot] == tree[p_][:prot]:
+                continue
+            o = out.get(p_)
+            if o is None:
+                bad = "no output for %s, damaged in its protected region" % p_
+            elif o[:prot] != tree[p_][:prot]:
+                bad = "protected region of %s not restored bit-exactly" % p_
+            elif o[prot:] != dmg[p_][prot:]:
+                bad = "bytes after the protected region of %s not reproduced verbatim" % p_
+            if bad:
+                break
+    common.say("params:", P.describe())
+    common.say("exit %s, stats %s, files written: %s" % (rc, st, sorted(out)))
+    common.say("FAILS: %s" % bad if bad else "the property holds on this input now")
+    return 1 if bad else 0
